@@ -163,6 +163,12 @@ def adapters(rng):
     add(("sutils.acf-idx-int", lambda v: sutils.acf(np.asarray(v.a1(obs), dtype=float), 1,
                                                     idx=sel.astype(np.int64))))
     add(("sutils.lhs", lambda v: sutils.lhs(7, v.a1(np.zeros(3)), v.a1(np.ones(3) * 2))))
+    add(("sutils.ppos", lambda v: (sutils.ppos(11), sutils.ppos(11, 0.3), sutils.ppos(4))))
+    add(("metrics.scores", lambda v: (metrics.nse(v.a1(obs), v.a1(sim)),
+                                      metrics.kge(v.a1(obs), v.a1(sim)),
+                                      metrics.bias(v.a1(obs), v.a1(sim)))))
+    add(("metrics.alpha", lambda v: metrics.alpha(v.a1(obs), v.a2(ens))))
+    add(("boxplot.compute_percentiles", lambda v: boxplot.compute_percentiles(72.5)))
     add(("sutils.lhs_norm", lambda v: sutils.lhs_norm(7, np.asarray(v.a1(np.zeros(2))),
                                                      v.a2(np.eye(2)))))
     add(("sutils.standard_normal", lambda v: sutils.standard_normal(v.a1(obs))))
